@@ -47,6 +47,7 @@ NoPhantomObserved(info) ==
 AcceptReg(r) ==
   CASE Check = "C04" -> \A i \in 1..N : ShapeOK(i)
     [] Check = "C05" -> \A i, j \in 1..N : (r.ids[i] = r.ids[j]) <=> (NF(ex[i].e) = NF(ex[j].e))
+    [] Check = "C01" -> WellFormed(r.types) /\ ResolveOK(r.types) /\ \A i \in 1..Len(r.ids) : r.ids[i] < Len(r.types)
     \* no member observed has the marker identity, and the observed members are exactly the documented ones after
     \* erasure (a marker that hides behind a wrapper which no longer forwards its identity is an extra member)
     [] Check = "C17" -> \A i \in 1..N : /\ NoPhantomObserved(ex[i].info) /\ NoPhantomMember(BuiltinInfo(ex[i].e, DocsOn))
@@ -67,13 +68,14 @@ AcceptMatrix(m) ==
 AcceptValue(v) == Check = "C04" => /\ DecodesTo(reg.types, reg.ids[v.i + 1], v.bytes, v.tree)
                                    /\ (solo # <<>> /\ solo.i = v.i) => DecodesTo(solo.types, solo.id, v.bytes, v.tree)
 \* C11 (iii) on real types: the corpus registered in another order gives the same registry up to renaming
-AcceptPerm(e) == Check = "C11" => RegIso(e.types1, e.types2, {<<e.ids1[i], e.ids2[i]>> : i \in 1..Len(e.ids1)})
+AcceptPerm(e) == /\ Check = "C11" => RegIso(e.types1, e.types2, {<<e.ids1[i], e.ids2[i]>> : i \in 1..Len(e.ids1)})
+                 /\ Check = "C01" => WellFormed(e.types1) /\ WellFormed(e.types2) /\ \A i \in 1..Len(e.ids2) : e.ids2[i] < Len(e.types2)
 Next == /\ l <= Len(Rec)
         /\ LET e == Rec[l] IN
            CASE e.ev = "Expr" -> /\ ex' = (IF e.i = 0 THEN <<>> ELSE ex) \o <<[e |-> e.e, tid |-> e.tid, decl |-> e.decl, info |-> e.info]>>
                                  /\ reg' = IF e.i = 0 THEN <<>> ELSE reg
                                  /\ solo' = IF e.i = 0 THEN <<>> ELSE solo
-             [] e.ev = "Solo" -> solo' = e /\ UNCHANGED <<ex, reg>>
+             [] e.ev = "Solo" -> (Check = "C01" => WellFormed(e.types) /\ e.id < Len(e.types)) /\ solo' = e /\ UNCHANGED <<ex, reg>>
              [] e.ev = "Reg" -> AcceptReg(e) /\ reg' = e /\ ex' = ex /\ solo' = solo
              [] e.ev = "Matrix" -> AcceptMatrix(e) /\ UNCHANGED <<ex, reg, solo>>
              [] e.ev = "Value" -> AcceptValue(e) /\ UNCHANGED <<ex, reg, solo>>
